@@ -409,6 +409,16 @@ class Ctx:
             "theorems": {t: ("partial" if t in partial else "refuted-witness" if t in refuted else "proved") if t in thms else "NOT CHECKED" for t in obligations},
             "axioms": axioms,
         })
+        if not self.quick() and okp and os.environ.get("VERIF_NOCOQCHK") is None:
+            # independent re-check of the compiled statement file and everything it depends on
+            mod = "KV.%s.%s" % (engine.capitalize(), os.path.splitext(vfile)[0])
+            t1 = time.time()
+            okc, oc = coqchk(engine, [mod])
+            ax = [l.strip() for l in oc.split("\n") if l.strip()]
+            self.coverage.setdefault("coqchk", {})[mod] = {"ok": okc, "wall_s": round(time.time() - t1, 1),
+                                                        "output_tail": ax[-12:]}
+            if not okc:
+                self.broke("coqchk rejected %s" % mod, oc[-3000:])
         return okp and not missing
 
 
